@@ -1111,13 +1111,18 @@ class PyCdlib:
                     else:
                         # For real files, create an inode that points to the
                         # location on disk.
-                        if extent_to_use in extent_to_inode:
+                        if len_to_use != 0 and extent_to_use in extent_to_inode:
                             ino = extent_to_inode[extent_to_use]
                         else:
                             ino = inode.Inode()
                             ino.parse(extent_to_use, len_to_use, cdfp,
                                       self.logical_block_size)
-                            extent_to_inode[extent_to_use] = ino
+                            # Zero-length files and symlinks have no data, so
+                            # there is nothing to tell which of them belong
+                            # together; each one gets an Inode of its own
+                            # rather than being linked to all of the others.
+                            if len_to_use != 0:
+                                extent_to_inode[extent_to_use] = ino
                             self.inodes.append(ino)
 
                         ino.linked_records.append((new_record, vd == self.pvd))
@@ -2143,14 +2148,15 @@ class PyCdlib:
                         if self.eltorito_boot_catalog is not None and abs_file_data_extent == self.eltorito_boot_catalog.extent_location():
                             self.eltorito_boot_catalog.add_dirrecord(next_entry)
                         else:
-                            if abs_file_data_extent in extent_to_inode:
+                            if abs_file_data_extent != 0 and abs_file_data_extent in extent_to_inode:
                                 ino = extent_to_inode[abs_file_data_extent]
                             else:
                                 ino = inode.Inode()
                                 ino.parse(abs_file_data_extent,
                                           next_entry.get_data_length(),
                                           self._cdfp, self.logical_block_size)
-                                extent_to_inode[abs_file_data_extent] = ino
+                                if abs_file_data_extent != 0:
+                                    extent_to_inode[abs_file_data_extent] = ino
                                 self.inodes.append(ino)
 
                             ino.linked_records.append((next_entry, False))
